@@ -358,7 +358,7 @@ def run_shard(spec, ctx):
 
 FLOOR_LABELS = {
     "block_true": 0.06, "block_false": 0.05, "block_flag": 0.1, "block_notflag": 0.04, "block_nested": 0.05,
-    "env_autoescape_on": 0.2, "env_autoescape_off": 0.3, "markup_const": 0.3, "concat": 0.2, "filter_arg": 0.15,
+    "env_autoescape_on": 0.15, "env_autoescape_off": 0.3, "markup_const": 0.3, "concat": 0.2, "filter_arg": 0.15,
     "macro_default": 0.02, "stmt_if": 0.07, "stmt_set": 0.15, "subscript_literal": 0.1, "cond": 0.08, "cond_no_else": 0.04,
     "test": 0.04, "cmp": 0.09, "arith": 0.2, "pow": 0.04, "folded_by_optimizer": 0.2, "folded_at_output": 0.35,
     "flag_both": 0.2, "flag_changes_output": 0.03, "out_in_volatile": 0.1, "stmt_msafe": 0.05, "finalize_none_empty": 0.02,
